@@ -1,7 +1,7 @@
 (* Composition: a pipeline of Conc/Pipeline.v (stages with nested operand pipelines) evaluated with its map/accept
    stages running through the MapAuto/FilterAuto protocol under ANY assignment of schedule inputs has the sequential
    denotation. *)
-From P2 Require Import Base.Prelude Conc.ParMap Conc.Pipeline Conc.ConcProofs Conc.MapAutoProofs.
+From P2 Require Import Base.Prelude Conc.ParMap Conc.Pipeline Conc.ConcProofs Conc.MapAutoProofs Conc.MergeChan Conc.MergeChanProofs Conc.MergeLift Conc.CopyProdStop Conc.MultiUseLift.
 From Coq Require Import Lia.
 
 Lemma outcome_map_slog : forall p l i,
@@ -56,6 +56,15 @@ Proof.
   rewrite <- (seq_filter_slog (fun x => to_res (accept_fn p x)) (map (@ROk Z) l) 0). apply outcome_seq_filter.
 Qed.
 
+(* merge through two producer goroutines and the stop flag, any schedule *)
+Lemma par_merge_with_seq : forall pp p l o,
+  par_merge_with pp p l o = merge_fuel (S (length l + length o)) (merge_less p) l o.
+Proof.
+  intros pp p l o. unfold par_merge_with.
+  rewrite (merge_fun_eq_seq (fun x y => to_res (merge_less p x y)) (fun _ => false) (map (@ROk Z) l) (map (@ROk Z) o) (pp_msched pp)).
+  apply (merge_seq_is_merge_fuel (merge_less p)).
+Qed.
+
 Definition assignment_ok (asg : assignment) : Prop := forall k p l, 1 <= pp_nw (asg k p l).
 
 Lemma stage_par_with_seq : forall asg, assignment_ok asg ->
@@ -64,6 +73,8 @@ Proof.
   intros asg Hok k p o l. destruct k; try reflexivity; cbn [stage_par_with stage_seq].
   - apply par_map_with_seq, Hok.
   - apply par_accept_with_seq, Hok.
+  - destruct o as [o|]; [|reflexivity]. cbn [bind]. apply par_merge_with_seq.
+  - apply par_merge_with_seq.
   - destruct (esc_items e p o l); [|reflexivity]. cbn [bind]. apply par_fn_with_seq, Hok.
   - apply par_fn_with_seq, Hok.
 Qed.
@@ -104,16 +115,19 @@ Proof.
   cbn [stages_run]. rewrite (stage_run_ext st1 st2 H). apply bind_ext. exact IH.
 Qed.
 
-(* every pipeline, every assignment of (k, decision, worker count >= 1, schedule) to its parallel stages - the assignment
-   may differ from traversal to traversal: the outcome is the sequential denotation.
-   Partial in this sense: the parallel stages of the embedding are map and accept; merge (producer goroutines) and
-   multiUse (CopyProducer) are denoted sequentially in pipe_par_with too - their protocols are proved separately
-   (merge_chan_eq_seq, multi_use_each_sees_source) and composed with the rest only by the correspondence run. *)
-Lemma pipeline_par_eq_seq_lem : forall asg, assignment_ok asg ->
-  forall n stages t tp, pipe_par_with asg n stages t tp = pipe_seq n stages t tp.
+Lemma term_par_with_seq : forall tsched t p l, term_par_with tsched t p l = term_seq t p l.
+Proof. intros tsched t p l. destruct t; try reflexivity. apply par_multiuse_with_seq. Qed.
+
+(* every pipeline, every assignment of schedule inputs to its concurrent stages and to a multiUse terminal - the assignment
+   may differ from traversal to traversal: the outcome is the sequential denotation.  Every stage and terminal that the
+   library runs on more than one goroutine (map, accept and the maps of the escaping-list / nested-list stages through
+   MapAuto/FilterAuto, merge through two ToChan producers, multiUse through CopyProducer) is denoted by its protocol on
+   the parallel side; all other stages run on the calling goroutine in the library as well. *)
+Lemma pipeline_par_eq_seq_lem : forall asg tsched, assignment_ok asg ->
+  forall n stages t tp, pipe_par_with asg tsched n stages t tp = pipe_seq n stages t tp.
 Proof.
-  intros asg Hok n stages t tp. unfold pipe_par_with, pipe_seq.
-  rewrite (stages_run_ext _ _ (stage_par_with_seq asg Hok)). reflexivity.
+  intros asg tsched Hok n stages t tp. unfold pipe_par_with, pipe_seq.
+  rewrite (stages_run_ext _ _ (stage_par_with_seq asg Hok)). apply bind_ext. intro l. apply term_par_with_seq.
 Qed.
 
 Lemma run_assignment_ok : forall nw, (1 <= nw)%N -> assignment_ok (run_assignment nw).
